@@ -85,7 +85,15 @@ func genTargets(r *rand.Rand, n int) []int {
 	return ts
 }
 
+// nilPolyFlag marks a result polygon id whose polygon is a NIL geom.Polygon (a computed, empty result: the snapping
+// function is free to return it; the wrapper must still deliver it and not fall back on the source geometry).
+const nilPolyFlag = uint64(1) << 40
+
 func genOutcome(r *rand.Rand, ts []int, next *uint64, pDrop, pSplit float64) Outcome {
+	return genOutcomeNil(r, ts, next, pDrop, pSplit, false)
+}
+
+func genOutcomeNil(r *rand.Rand, ts []int, next *uint64, pDrop, pSplit float64, allowNil bool) Outcome {
 	o := Outcome{}
 	for _, t := range ts {
 		x := r.Float64()
@@ -99,7 +107,11 @@ func genOutcome(r *rand.Rand, ts []int, next *uint64, pDrop, pSplit float64) Out
 			}
 		default:
 			*next++
-			o[fmt.Sprint(t)] = []uint64{*next}
+			id := *next
+			if allowNil && r.Intn(25) == 0 {
+				id |= nilPolyFlag
+			}
+			o[fmt.Sprint(t)] = []uint64{id}
 		}
 	}
 	return o
@@ -149,7 +161,7 @@ func genScenario(r *rand.Rand, idx int, scheduleHeavy bool) Scenario {
 		switch x := r.Intn(100); {
 		case x < 45:
 			f.Kind = "polygon"
-			f.Parts = []Outcome{genOutcome(r, sc.Targets, &next, pDrop, pSplit)}
+			f.Parts = []Outcome{genOutcomeNil(r, sc.Targets, &next, pDrop, pSplit, true)}
 		case x < 70:
 			f.Kind = "multipolygon"
 			k := r.Intn(5) // 0 parts allowed
